@@ -56,13 +56,54 @@ Theorem C15_select_random_ok :
 Proof. exact C15_select_random_ok_proof. Qed.
 Print Assumptions C15_select_random_ok.
 
-(* min policies, part proved for every set state: the excluded node is never what the set hands out *)
+(* min policies, for every set state (reachable or not): the excluded node is never what the set hands out *)
 Theorem C15_excluded_respected_min :
   forall (a : aset) (e d : nat) (l : Z), get_min a (Some e) = (Some d, l) -> d <> e.
 Proof. exact C15_get_min_excluded_proof. Qed.
 Print Assumptions C15_excluded_respected_min.
 
-(*MINPROPS*)
+(* min policies (the three latency policies), selection at full strength: after every history every result
+   of SelectWithExclusionResult is accepted by the spec checker select_ok: the node is alive (and not the
+   excluded one) in the view of the first type, in the documented order, that has a non-excluded alive
+   node; no alive measured node of that view beats it by the tolerance or more (within_tol); the reported
+   latency is its measurement; `no alive node` only when every type tried is empty; one-node last resort. *)
+Theorem C15_select_min :
+  forall (c : cfg) (p0 : gpol) (h : list op) (rq : reqtype) (strict : bool) (excl : option nat) (m : mpol) (r : sel_res),
+    c_n c <> O -> g_policy (run c p0 h) = GSet (SMin m) ->
+    In r (results_of (select c (run c p0 h) rq strict excl)) ->
+    select_ok c (spec_run c p0 h) (key_of rq) strict excl r = true.
+Proof. exact C15_select_min_proof. Qed.
+Print Assumptions C15_select_min.
+
+(* the standing choice (minLatency.dialer) of every type is an alive node, and exists whenever a node is alive *)
+Theorem C15_best_is_alive :
+  forall (c : cfg) (p0 : gpol) (h : list op) (m : mpol) (sets : ntype -> aset) (t : ntype),
+    g_policy (run c p0 h) = GSet (SMin m) -> g_sets (run c p0 h) = Some sets ->
+    (forall b, a_best (sets t) = Some b ->
+               view_mem b (ss_views (spec_run c p0 h) t) = true /\ In b (map fst (a_entries (sets t)))) /\
+    (ss_views (spec_run c p0 h) t <> [] -> a_best (sets t) <> None).
+Proof. exact C15_best_is_alive_proof. Qed.
+Print Assumptions C15_best_is_alive.
+
+(* in every reachable state no alive node with a measurement beats the standing choice by the tolerance or more *)
+Theorem C15_best_within_tolerance :
+  forall (c : cfg) (p0 : gpol) (h : list op) (m : mpol) (sets : ntype -> aset) (t : ntype) (b : nat),
+    g_policy (run c p0 h) = GSet (SMin m) -> g_sets (run c p0 h) = Some sets ->
+    a_best (sets t) = Some b -> within_tol (c_tol c) (ss_views (spec_run c p0 h) t) b = true.
+Proof. exact C15_best_within_tolerance_proof. Qed.
+Print Assumptions C15_best_within_tolerance.
+
+(* every step of every history moves the standing choice of a type only for an allowed reason (switch_ok):
+   the new one is better by at least the tolerance, or not worse while the current latency is below the
+   tolerance, or the current one has no measurement, or it stopped being alive, or the step is a policy switch *)
+Theorem C15_switch_reasons :
+  forall (c : cfg) (p0 : gpol) (h : list op) (o : op) (m : mpol) (sets sets' : ntype -> aset) (t : ntype),
+    g_policy (run c p0 h) = GSet (SMin m) -> g_sets (run c p0 h) = Some sets ->
+    g_sets (run c p0 (h ++ [o])) = Some sets' ->
+    switch_ok (c_tol c) (ss_views (spec_run c p0 (h ++ [o])) t) (a_best (sets t)) (a_best (sets' t))
+              (match o with OPolicy _ => true | _ => false end) = true.
+Proof. exact C15_switch_reasons_proof. Qed.
+Print Assumptions C15_switch_reasons.
 
 (* "merely better" cannot be read strictly: with tolerance 30 ms and the current choice at 20 ms, a node that
    reports the same 20 ms takes over (the spec's switch_ok therefore allows ties). *)
@@ -84,3 +125,13 @@ Example C15_nonvacuous :
   /\ results_of (select c (run c (GSet SRandom) h) rq true None) = [ROk 1 0]
   /\ results_of (select c (run c (GSet SRandom) (h ++ [OPolicy (GFixed 2)])) rq true (Some 2%nat)) = [ROk 2 0].
 Proof. exact C15_nonvacuous_proof. Qed.
+
+(* Non-vacuity for the min policies: tolerance 30 ms; node 0 at 100 ms is the choice; node 1 at 80 ms does not
+   take over (not better by 30 ms), at 60 ms it does; excluding it, the selection hands out node 0. *)
+Example C15_min_nonvacuous :
+  let best h := match g_sets (run w3_cfg (GSet (SMin MLast)) h) with Some s => a_best (s (DTcp, V4)) | None => None end in
+  let rq := {| rq_l4 := TCP; rq_ipv := V4; rq_isdns := true; rq_udpdom := UUnset |} in
+  best (firstn 4 w3_hist) = Some 0%nat /\ best w3_hist = Some 1%nat /\
+  results_of (select w3_cfg (run w3_cfg (GSet (SMin MLast)) w3_hist) rq true None) = [ROk 1 60000000] /\
+  results_of (select w3_cfg (run w3_cfg (GSet (SMin MLast)) w3_hist) rq true (Some 1%nat)) = [ROk 0 100000000].
+Proof. exact C15_min_nonvacuous_proof. Qed.
